@@ -291,6 +291,12 @@ class LinInterp(eir.Interp):
         return eir.Interp.branch(self, cond)
 
     def _lin_feasible(self, c):
+        if self.lazy_feasibility and self.hard_feasibility:
+            # in a forked child killed at the deadline: z3 does not always honour the (short) time limit of these queries, and one query that
+            # runs for minutes is the difference between a verdict and a killed obligation
+            ms = 3000 if self.lazy_feasibility is True else int(self.lazy_feasibility)
+            v = self.L.prove_hard(z3.Not(z3.And(*(list(self.lin_pc) + [c]))), "feasibility", ms / 1000.0 + 1.0, ms)
+            return v is not True       # refuted -> infeasible; satisfiable or undecided -> explore the side
         s = self.L.solver
         s.push()
         try:
